@@ -59,6 +59,24 @@ theorem c03_loop_forwards_only_checked (allowed : Option (List Cap)) (k : Nat) (
   rw [c03_guards_extracted.1]
   exact (toolLoop_ext allowed k rounds s).2
 
+/-- A tool that was removed from the registry (or never registered) is never run: every executed tool was, at that
+    moment, the object registered under the requested name. -/
+theorem c03_only_currently_registered (allowed : Option (List Cap)) (s : St) (n : String)
+    (hl : s.reg.lookup n = none) :
+    (executeToolCall guards allowed s n).1.events = s.events ∧
+    (metabolize guards allowed s .oxidative (.name n) true).1.events = s.events := by
+  simp [executeToolCall, metabolize, oxidative, hl]
+
+/-- removal really removes: after `unreg n` the name is unknown -/
+theorem c03_erase_lookup (r : Registry) (n : String) : (r.erase n).lookup n = none := by
+  unfold Registry.lookup Registry.erase
+  have : (List.filter (fun p : String × Tool => !(p.1 == n)) r).find? (fun p => p.1 == n) = none := by
+    rw [List.find?_eq_none]
+    intro p hp
+    have := (List.mem_filter.mp hp).2
+    simpa using this
+  simp [this]
+
 /-- an unrestricted engine (`allowed_capabilities=None`) refuses nothing: permitted is constantly true -/
 theorem c03_unrestricted_permits_all (t : Tool) : permitted none t = true := rfl
 
